@@ -186,7 +186,10 @@ def fresh_cases(draw):
             "fmt": draw(st.sampled_from(["npy", "npy", "fits", "txt"])),
             "det": [draw(st.integers(1, 6)), draw(st.integers(1, 6))],
             "versions": [{"shape": [draw(st.integers(1, 6)), draw(st.integers(1, 6))] if draw(st.booleans()) else None, "seed": draw(st.integers(0, 10**6))} for _ in range(n)],
-            "pos": [draw(st.integers(0, 2)), draw(st.integers(0, 2))], "mtime": draw(st.sampled_from(["advance", "advance", "restore_first"]))}
+            "pos": [draw(st.integers(0, 2)), draw(st.integers(0, 2))], "mtime": draw(st.sampled_from(["advance", "advance", "restore_first"])),
+            # how the model is told where the file is: absolute path, relative to the process's directory, or relative to
+            # pyxel's global 'working_directory' option (as set by a YAML 'working_directory:' entry), possibly switched between runs
+            "path_style": draw(st.sampled_from(["absolute", "absolute", "relative_cwd", "relative_workdir", "relative_workdir", "two_workdirs"]))}
 
 
 def body_fresh(case, rec):
@@ -196,10 +199,19 @@ def body_fresh(case, rec):
     from pyxel.models.photon_collection import load_image as load_image_model
     from pyxel.util import fit_into_array, load_cropped_and_aligned_image
 
+    import pyxel
+
     rows, cols = case["det"]
-    rec.cls(f"via:{case['via']}", f"fmt:{case['fmt']}")
+    style = case.get("path_style", "absolute")
+    rec.cls(f"via:{case['via']}", f"fmt:{case['fmt']}", f"path:{style}")
     rec.nt()
-    path = rec.tmp / f"frame.{case['fmt']}"
+    name = f"frame.{case['fmt']}"
+    folders = [rec.tmp]
+    if style in ("relative_workdir", "two_workdirs"):
+        folders = [rec.tmp / "data_a"] + ([rec.tmp / "data_b"] if style == "two_workdirs" else [])
+        for f_ in folders:
+            f_.mkdir()
+    path = folders[0] / name
     base_shape = None
     first_stat = None
     for i, v in enumerate(case["versions"]):
@@ -208,7 +220,13 @@ def body_fresh(case, rec):
             shape = (shape[0] + 1, shape[1])  # same mtime as the first version, but another size
         base_shape = base_shape or shape
         content = np.random.RandomState(v["seed"]).uniform(1.0, 50.0, size=shape).round(3)
+        if style == "two_workdirs":
+            path = folders[i % 2] / name  # the same relative name, alternately in two working directories
+            first_stat = None
+        if style in ("relative_workdir", "two_workdirs"):
+            pyxel.set_options(working_directory=str(path.parent))
         _write(path, content, case["fmt"], "comma")
+        given = str(path) if style == "absolute" else name  # cwd is the case directory (= rec.tmp)
         # the harness owns the file clock: every rewrite is stamped one second after the previous one
         # ("advance"), or gets the first version's mtime back while its size differs ("restore_first")
         first_stat = first_stat or os.stat(path)
@@ -228,13 +246,13 @@ def body_fresh(case, rec):
         got, raised = None, None
         try:
             if case["via"] == "load_image_model":
-                load_image_model(det, image_file=str(path), position=pos)
+                load_image_model(det, image_file=given, position=pos)
                 got = det.photon.array
             elif case["via"] == "load_charge_model":
-                load_charge(det, filename=str(path), position=pos)
+                load_charge(det, filename=given, position=pos)
                 got = det.charge.array
             else:
-                got = load_cropped_and_aligned_image(shape=(rows, cols), filename=str(path), position_x=pos[1], position_y=pos[0])
+                got = load_cropped_and_aligned_image(shape=(rows, cols), filename=given, position_x=pos[1], position_y=pos[0])
         except Exception as exc:  # noqa: BLE001
             raised = exc
         if want is None:
@@ -243,7 +261,7 @@ def body_fresh(case, rec):
         if not rec.check(raised is None, "valid_file_refused", f"version {i}: {raised!r}"):
             continue
         rec.check(bool(np.array_equal(np.asarray(got, dtype=float), want)), "stale_or_wrong_content_loaded",
-                  lambda: f"after rewrite #{i} ({case['via']}, {case['fmt']}, mtime={case['mtime']}): loaded {np.asarray(got).ravel()[:3]} file holds {want.ravel()[:3]}")
+                  lambda: f"after rewrite #{i} ({case['via']}, {case['fmt']}, mtime={case['mtime']}, path={style}): loaded {np.asarray(got).ravel()[:3]} file holds {want.ravel()[:3]}")
 
 
 PARTS = {"place": body_place, "files": body_files, "fresh": body_fresh}
